@@ -44,6 +44,7 @@ def _big(seed, n=3 << 20):
     while len(out) < n:
         h = hashlib.sha256(h).digest(); out += h.hex().encode() + b"\n"
     return bytes(out[:n])
+CONTENT["CTX"] = b"".join(b"row %02d %s\n" % (i, b"a" if i in (20, 47) else b"-") for i in range(60))     # two matches with more than 12 other lines around each
 CONTENT["BIGA"] = _big(b"A")
 CONTENT["BIGB"] = b"X" + CONTENT["BIGA"][1:]                    # differs in the first byte
 CONTENT["BIGC"] = CONTENT["BIGA"][:-2] + b"Z\n"                # differs at the very end
@@ -676,6 +677,11 @@ def grid_grep_bundles(env, tier):
         yield mkcase("bundle", "xzgrep", ["-" + a + "m1", "a"] + names, files, both)
     for o in (["-1"], ["-2"], ["-A", "1"], ["-B", "1"], ["-C", "1"], ["-m", "1"], ["-m1"], ["-12"]):
         yield mkcase("bundle", "xzgrep", o + ["a"] + names, files, both)
+    # context counts of two digits, alone and bundled with letters, on a file long enough to show the difference
+    cfile = [("ctx.xz", "xz", "CTX", "ok")]
+    for o in (["-12"], ["-12n"], ["-n12"], ["-i15n"], ["-10i"], ["-C12"], ["-A10", "-B11"], ["-nA12"], ["-25"], ["-3n"], ["-in10"], ["-10", "-n"]):
+        yield mkcase("bundle-context", "xzgrep", o + [" a$", "ctx.xz"], cfile)
+        yield mkcase("bundle-context", "xzgrep", o + [" a$", "ctx.xz", "f1.xz"], cfile + [files[0]], both)
 
 
 LONGOPTS = [["--files-with-matches"], ["--files-without-match"], ["--with-filename"], ["--no-filename"], ["--count"],
